@@ -34,6 +34,7 @@ func combineCase(c *run.Ctx) run.Result {
 	o.checkRepeat()
 	if topo == modeling.TriangleTopology {
 		o.checkSplit()
+		o.checkSplitAfterNothingToRemove()
 	}
 	o.finish(topo == modeling.TriangleTopology)
 	return res
@@ -698,6 +699,17 @@ func (o *opctx) checkSplit() {
 		if !sameNames(o.im.names, pm.names) {
 			o.violate("attribute-set-changed", site, fmt.Sprintf("part %d: attributes %v -> %v", i, o.im.names, pm.names), extra...)
 			return
+		}
+		// a part holds its own triangles' vertices, not the vertex arrays of the whole mesh
+		refd := make([]bool, pm.L)
+		for _, v := range ps.Indices {
+			refd[v] = true
+		}
+		for v, b := range refd {
+			if !b {
+				o.violate("unreferenced-vertex-left", site, fmt.Sprintf("part %d (%s, %d triangles) carries %d vertices of which vertex %d is referenced by none of its triangles", i, ps.MatVal[0].Name, pm.nPrims(), pm.L, v), extra...)
+				return
+			}
 		}
 		g := pm.primsOver(o.im.names)
 		vk := valKey(ps.MatPtr[0])
